@@ -147,6 +147,9 @@ def r1(ctx, new):
         # array shape: 5 bytes, first is the tag
         ok_shape = base.tag == 'array' and len(base.args) == 5 and all(x.tag == 'const' for x in base.args)
         tag = base.args[0][1] if ok_shape else None
+        if base.tag == 'repeatv' and str(base[2]) == '5' and base[1].tag == 'const':
+            # [c; 5]
+            ok_shape, tag = True, base[1][1]
         stores = [e for e in evs if e.tag == 'ev' and e[1] == 'store']
         for e in stores:
             v = e[3][0]
